@@ -69,10 +69,24 @@ CHECKS = [
         "note": COMMON_NOTE,
         "technique": 'CFG region/dominance analysis of Config.__setattr__; literal-domain agreement; def-use identity of masks; sibling summary comparison',
     },
+    {
+        "property_id": "C12",
+        "text": "Grammar/table agreement and naming for Python expressions inside calls: the grammar extracted for C01, restricted to the operator kinds CallResolver accepts, is compared pairwise with Python's precedence and associativity (3 genuine divergences recorded as known findings: ** left-associative, unary sign above **, comparison chains left-nested); scanner lexeme -> token kind -> operator.<fn> -> printed symbol composes to the identity and each fn is Python's function for that operator; argument plumbing; {e} = I(e) and I is the identity; literal conversion; name field coverage plus an injectivity detector (known finding: no parentheses in names). Not decided: numerical equality with eval().",
+        "design_ref": 'DESIGN.md section 3, C12 (R12.1-R12.6); section 4 F10, F11',
+        "note": COMMON_NOTE,
+        "technique": 'extracted-grammar vs reference-table comparison; three-table agreement; AST structural rules',
+    },
+    {
+        "property_id": "C06",
+        "text": 'Freeze-at-training discipline on the typed call graph of the prediction path: fit-once typestate of every registered stateful transform (data-tainted stores under a closed freshness guard, interprocedural), row-locality (every aggregate of the new frame on the path is guarded, allow-listed with a reason, or subset-closed validation; binary() and CategoricalBox.levels are known findings), remembered coding reused (no recoding / training step reachable), single holder per component at all 22 constructor sites, sibling agreement training<->prediction, every eval_new_data* result depends on the new frame. Not decided: the matrix identity itself (runtime relation).',
+        "design_ref": 'DESIGN.md section 3, C06 (R6.1-R6.6); section 4 F6-F9',
+        "note": COMMON_NOTE,
+        "technique": 'closed-world type inference + typed call-graph reachability; intraprocedural taint with an aggregation catalogue; guard typestate (dominance/closure); ownership classification of constructor sites',
+    },
 ]
 PENDING = "claimed in DESIGN.md; its check is not registered in this revision of /verif yet"
 NOT_APPLICABLE = [
     {"property_id": "C03", "reason": "rank and column space of a data-dependent matrix are linear-algebra facts about runtime values; no sound static argument in reach bounds the patsy-style redundancy algorithm for every term family and order"},
     {"property_id": "C13", "reason": "rank, zero-sum and span of contrast matrices for every size/reference are algebraic identities over np.eye/vstack index arithmetic; deciding them needs evaluation or proof, not code shape (index agreement between matrix and labels is decided under C04, option plumbing under C16)"},
     {"property_id": "C14", "reason": "mean zero, unit deviation, partition of unity, orthonormality are numerical identities over all inputs; the only shape-level clause (parameters fitted once and frozen) is decided under C06"},
-] + [{"property_id": p, "reason": PENDING} for p in ["C04", "C05", "C06", "C07", "C08", "C12", "C15", "C16"]]
+] + [{"property_id": p, "reason": PENDING} for p in ["C04", "C05", "C07", "C08", "C15", "C16"]]
